@@ -101,3 +101,80 @@ def name_requests():
                         (unresolved if k.startswith("?unresolved") else out).append(item)
     uniq = sorted({(a, b) for a, b, _ in out})
     return uniq, unresolved, out
+
+
+# --------------------------------------------------------------------------- C11: dispatch data
+def _isinstance_classes(test):
+    """`isinstance(node, ast.X)` / `isinstance(node, (ast.X, ast.Y))` → ['X', 'Y'] or None"""
+    if not (isinstance(test, ast.Call) and isinstance(test.func, ast.Name) and test.func.id == "isinstance"
+            and len(test.args) == 2):
+        return None
+    spec = test.args[1]
+    elts = spec.elts if isinstance(spec, ast.Tuple) else [spec]
+    out = []
+    for e in elts:
+        if isinstance(e, ast.Attribute) and isinstance(e.value, ast.Name) and e.value.id == "ast":
+            out.append(e.attr)
+        elif isinstance(e, ast.Name):
+            out.append(e.id)
+        else:
+            return None
+    return out
+
+
+def _arm_of_body(body):
+    """Classify what an arm of handle_ast_node does."""
+    src = "\n".join(ast.unparse(s) for s in body)
+    if any(isinstance(s, ast.Raise) for s in body) and "NotImplementedError" in src:
+        return "refuse"
+    calls = [n.func.attr for s in body for n in ast.walk(s) if isinstance(n, ast.Call) and isinstance(n.func, ast.Attribute)]
+    if "handle_function_def" in calls:
+        return "funcDef"
+    if "handle_if" in calls:
+        return "ifS"
+    if "handle_while" in calls:
+        return "whileS"
+    if "handle_for" in calls:
+        return "forS"
+    if "handle_expression" in calls and "append" in calls:
+        return "simple"
+    if calls == ["append"]:
+        return "noop"
+    return "unknown"
+
+
+def dispatch_data():
+    """chain / fallback / nested-def refusal from the source + statement classes of this interpreter."""
+    tree = parse("core/datastructures/ast_transforms.py")
+    cls = next(n for n in tree.body if isinstance(n, ast.ClassDef) and n.name == "AST2SCFGTransformer")
+    fn = next(n for n in cls.body if isinstance(n, ast.FunctionDef) and n.name == "handle_ast_node")
+    chain, fallback = [], "unknown"
+    node = next((s for s in fn.body if isinstance(s, ast.If)), None)
+    while node is not None:
+        classes = _isinstance_classes(node.test)
+        chain.append((classes or ["?" + ast.unparse(node.test)], _arm_of_body(node.body) if classes else "unknown"))
+        if len(node.orelse) == 1 and isinstance(node.orelse[0], ast.If):
+            node = node.orelse[0]
+        else:
+            fallback = _arm_of_body(node.orelse) if node.orelse else "noop"
+            node = None
+    # does handle_function_def refuse a definition that is not the outermost statement?
+    hfd = next(n for n in cls.body if isinstance(n, ast.FunctionDef) and n.name == "handle_function_def")
+    nested = False
+    for s in hfd.body:
+        if isinstance(s, ast.If) and "self.tree[0]" in ast.unparse(s.test) and "is not" in ast.unparse(s.test) \
+                and any(isinstance(x, ast.Raise) and "NotImplementedError" in ast.unparse(x) for x in s.body):
+            nested = True
+    kinds = []
+    import ast as _ast
+    for name in sorted(dir(_ast)):
+        obj = getattr(_ast, name)
+        if isinstance(obj, type) and issubclass(obj, _ast.stmt) and obj is not _ast.stmt:
+            kinds.append((name, [c.__name__ for c in obj.__mro__ if c is not object]))
+    return {"chain": chain, "fallback": fallback, "nested": nested, "kinds": kinds}
+
+
+def dispatch_wire(d):
+    ch = ",".join("+".join(c) + ":" + a for c, a in d["chain"]) or "-"
+    ks = ",".join(n + ":" + "+".join(m) for n, m in d["kinds"]) or "-"
+    return f"{ch};{d['fallback']};{'1' if d['nested'] else '0'};{ks}"
